@@ -249,7 +249,7 @@ def judge(c, g, m):
     if g["suf"] != "skip" and g["suf"] != m["suf"] and g["suf"] != m.get("sufu"):
         return ("corr", "ConstantSuffix %s, model %s" % (g["suf"], m["suf"]))
     if m["af"] == "1":
-        if g["acc"] != m["acc"]:
+        if g["acc"][:len(m["acc"])] != m["acc"]:
             return ("corr", "path semantics differs from the real matcher on an assertion-free program")
     else:
         if any(a == "1" and b == "0" for a, b in zip(g["acc"], m["acc"])):
